@@ -34,6 +34,7 @@ PROP = {  # commit subject prefix -> (property, what failed)
     "fix: defining an empty tuple of identifiers": ("C03", "'def () := 3' panicked: cannot have empty identifier"),
     "fix: a context error in a single-file run names the file": ("C19", "context errors (duplicate parent, argument without type, cyclic inheritance, alias mismatch) were rendered as '──→ <unknown>:1:16' without quoted line, also for a single input file"),
     "fix: a diagnostic without a real position names only the file": ("C19", "'class (): (K)' reported '──→ src/f.mamba:0:0'"),
+    "fix: ordering class members does not print them": ("C03", "regression of the member-order repair caught by the C15-1 seed run: every interface with an abstract method panicked ('attempt to subtract with overflow', generate/ast/mod.rs:116) because the tie-break printed a decorated method at depth 0"),
 }
 def main():
     data = json.load(open(P)) if os.path.exists(P) else {"findings": []}
